@@ -1,0 +1,66 @@
+//go:build verif
+
+// Ghost drivers for /verif/govc (see /verif/DESIGN.md, "history lemmas"). They are compiled only with the build tag
+// verif and are never called: each one is an arbitrary history of operations written as a loop, so that the
+// induction over histories becomes a loop invariant proved from the CONTRACTS of the real handler functions
+// (at each call only the callee's contract is used, and each of those contracts is proved against the real code).
+package oauth2
+
+import (
+	"context"
+
+	"github.com/ory/fosite"
+)
+
+// verifEnv is the environment of a history: it decides how long the history is, which operation comes next and
+// with which inputs (any client, any request, any token string). Its contract only says that the request objects it
+// hands out are the application's own (new per request, as fosite requires), nothing about their contents.
+type verifEnv interface {
+	More() bool
+	Kind() int
+	Request() fosite.AccessRequester
+	Response() fosite.AccessResponder
+	Token() string
+	TokenType() fosite.TokenType
+	Client() fosite.Client
+	Signature() string
+	Grant() string
+	AuthorizeRequest() fosite.AuthorizeRequester
+	AuthorizeResponse() fosite.AuthorizeResponder
+}
+
+// verifHistoryTokenEndpoint: any sequence of token-endpoint operations of this package - presenting an authorization
+// code (fresh, used, unknown), refreshing (fresh, used, unknown refresh token), revoking, introspecting, and any other
+// handler storing an access token under a request id of its own - and the authorization endpoint issuing new codes and
+// implicit access tokens in between.
+func verifHistoryTokenEndpoint(ctx context.Context, env verifEnv, code *AuthorizeExplicitGrantHandler, refresh *RefreshTokenGrantHandler,
+	revoke *TokenRevocationHandler, intro *CoreValidator, implicit *AuthorizeImplicitGrantTypeHandler, store AccessTokenStorage, sig0 string) {
+	for env.More() {
+		switch env.Kind() {
+		case 0:
+			req, resp := env.Request(), env.Response()
+			if code.HandleTokenEndpointRequest(ctx, req) == nil {
+				_ = code.PopulateTokenEndpointResponse(ctx, req, resp)
+			}
+		case 1:
+			req, resp := env.Request(), env.Response()
+			if refresh.HandleTokenEndpointRequest(ctx, req) == nil {
+				_ = refresh.PopulateTokenEndpointResponse(ctx, req, resp)
+			}
+		case 2:
+			_ = revoke.RevokeToken(ctx, env.Token(), env.TokenType(), env.Client())
+		case 3:
+			_, _ = intro.IntrospectToken(ctx, env.Token(), env.TokenType(), env.Request(), nil)
+		case 4:
+			// some other grant (client credentials, password, device, JWT bearer, implicit) stores an access token
+			// under the id of its own, new request
+			_ = store.CreateAccessTokenSession(ctx, env.Signature(), env.Request())
+		case 5:
+			// the authorization endpoint issues a new authorization code
+			_ = code.IssueAuthorizeCode(ctx, env.AuthorizeRequest(), env.AuthorizeResponse())
+		case 6:
+			// the authorization endpoint issues an access token (implicit flow)
+			_ = implicit.IssueImplicitAccessToken(ctx, env.AuthorizeRequest(), env.AuthorizeResponse())
+		}
+	}
+}
